@@ -5,7 +5,7 @@ from framework import Violation
 
 rule = ("builder probes: every 5-tuple over the lattice {-inf,-2,-1,-0.0,0.0,1,2,3,+inf,NaN} with all setters in canonical "
         "order (quick: a seeded 1/10 sample plus all tuples over a 5-value sub-lattice; thorough: all 10^5), every subset of "
-        "setters, every order of the five setters, sequences with repeated setters, random finite tuples; a case is non-trivial "
+        "setters, every order of the five setters, sequences with repeated setters, random finite tuples, and ~760 near-tie tuples (two compared prices equal or 1-3 ulps / 1e-13..1e-7 relative apart on either side, at nine magnitudes incl. subnormal and 1e300; volumes just below zero); a case is non-trivial "
         "when it is distinct as (call sequence) — all are single-op cases")
 assumptions = ["f64 comparison semantics of rustc on x86-64 are IEEE-754 (NaN unordered)"]
 LATTICE = [float("-inf"), -2.0, -1.0, -0.0, 0.0, 1.0, 2.0, 3.0, float("inf"), float("nan")]
@@ -41,6 +41,39 @@ def gen_cases(ctx):
         add([(r.choice(FIELDS), r.choice(LATTICE + [r.uniform(-5, 5)])) for _ in range(n)])
     for _ in range(20000 if ctx.thorough else 1500):
         add(zip(FIELDS, [r.uniform(-100, 100) for _ in range(5)]))
+    # near ties (seed-independent): two prices that the validation compares, equal or a few units in the last place / 1e-13 .. 1e-7
+    # relative apart on either side — a "rounding tolerant" comparison or a snap-to-range accepts (or alters) what must be rejected
+    import math
+    def nudge(x, how):
+        kind, amt = how
+        if kind == "ulp":
+            for _ in range(abs(amt)):
+                x = math.nextafter(x, math.inf if amt > 0 else -math.inf)
+            return x
+        return x * (1.0 + amt) if x != 0.0 else amt * 1e-300
+    hows = [("ulp", k_) for k_ in (1, -1, 3, -3)] + [("rel", e_ * s_) for e_ in (1e-13, 1e-12, 1e-10, 1e-7) for s_ in (1, -1)]
+    n_near = 0
+    for x in (20.0, 0.3, 1.0, 1e-3, 1e6, 24.999999999999, -5.0, 2.0 ** -1060, 1e300):
+        lo_, hi_ = (x * 0.5, x * 2.0) if x > 0 else (x * 2.0, x * 0.5)
+        # (field moved, the field it is compared with): low vs open / close / high, high vs open / close
+        for a_, b_ in (("l", "o"), ("l", "c"), ("l", "h"), ("h", "o"), ("h", "c"), ("o", "l"), ("c", "h")):
+            for how in hows:
+                t = {"o": x, "c": x, "h": hi_, "l": lo_, "v": 1.0}
+                t[b_] = x
+                t[a_] = nudge(x, how)
+                # keep the remaining constraints slack: every other field sits between the two tied ones and the far bounds
+                if "h" not in (a_, b_):
+                    t["h"] = hi_
+                if "l" not in (a_, b_):
+                    t["l"] = lo_
+                if a_ + b_ in ("lh", "hl"):
+                    t["o"] = t["c"] = x if t["l"] <= x <= t["h"] else t["l"]
+                add([(f_, t[f_]) for f_ in FIELDS], meta={"near": True})
+                n_near += 1
+    for v_ in (-5e-324, -1e-300, -2.2250738585072014e-308, 5e-324):
+        add(zip(FIELDS, (1.5, 3.0, 1.0, 2.0, v_)), meta={"near": True})
+        n_near += 1
+    ctx.stats["near_tie_tuples"] = n_near
     ctx.stats["lattice_tuples"] = len(sel)
     return cases
 
